@@ -46,3 +46,43 @@ Proof. intros k f [->|[->| ->]]; reflexivity. Qed.
 Theorem attrs_parameter_drops_the_underscore : forall f,
   l_private f = true -> field_id KAttrs f = String.append "_" (param_name KAttrs f).
 Proof. intros f H. unfold field_id, param_name, attr_of. now rewrite H. Qed.
+
+(* ---- TypedDict against the definition-order kinds, when the layout does not depend on positions ---- *)
+Definition named_paths (sc : schema) (output : bool) (fs : list Layout.fld) : list (string * mapped) :=
+  map (fun nf => (f_name (snd nf), map_field sc output (fst nf) (snd nf))) (combine (seq 0 (List.length fs)) fs).
+
+Lemma map_field_ignores_id sc output i f g :
+  f_name f = f_name g -> map_field sc output i f = map_field sc output i g.
+Proof. intro H. unfold map_field. rewrite H. reflexivity. Qed.
+
+Lemma named_paths_without_positions sc output : s_as_list sc = false -> forall fs,
+  named_paths sc output fs = map (fun f => (f_name f, map_field sc output 0 f)) fs.
+Proof.
+  intros Hl fs. unfold named_paths. generalize 0 at 1. induction fs as [|f r IH]; intro n; [reflexivity|].
+  cbn [List.length seq combine map fst snd]. rewrite (position_matters_only_for_as_list sc output n 0 f Hl). f_equal. apply IH.
+Qed.
+
+Lemma layout_fields_names k lm :
+  map (fun f => (f_name f, f_required f)) (layout_fields k lm) = map (fun l => (field_id k l, l_required l)) (ordered k lm).
+Proof.
+  unfold layout_fields. generalize (ordered k lm). intro ol. generalize 0. induction ol as [|l r IH]; intro n; [reflexivity|].
+  cbn [List.length seq combine map fst snd f_name f_required]. f_equal. apply IH.
+Qed.
+
+(* every logical field gets the same path whether the model is a TypedDict or a kind that keeps the definition order *)
+Theorem typed_dict_same_paths : forall k lm sc output,
+  keeps_definition_order k = true -> s_as_list sc = false ->
+  Permutation (named_paths sc output (layout_fields KTypedDict lm)) (named_paths sc output (layout_fields k lm)).
+Proof.
+  intros k lm sc output Hk Hl. rewrite !(named_paths_without_positions sc output Hl).
+  (* both sides are a function of (name, required) of each field, and those lists are permutations of each other *)
+  assert (Hf : forall fs, map (fun f => (f_name f, map_field sc output 0 f)) fs =
+                          map (fun nr : string * bool => (fst nr, map_field sc output 0 {| f_id := 0; f_name := fst nr; f_required := snd nr |}))
+                              (map (fun f => (f_name f, f_required f)) fs)).
+  { intro fs. rewrite map_map. apply map_ext. intro f. cbn [fst snd]. f_equal. }
+  rewrite (Hf (layout_fields KTypedDict lm)), (Hf (layout_fields k lm)). apply Permutation_map.
+  rewrite !layout_fields_names.
+  assert (Hid : forall l, field_id KTypedDict l = field_id k l) by reflexivity.
+  assert (Hord : ordered k lm = lm) by (destruct k; try discriminate; reflexivity). rewrite Hord.
+  apply Permutation_map. exact (typed_dict_lists_the_same_fields lm).
+Qed.
